@@ -437,6 +437,18 @@ class Inliner:
                         stmts[i:i + 1] = ex[0] or [ast.Pass(lineno=st.lineno, col_offset=0)]
                         changed = True
                         continue
+            # `if A or <helper call> [or ..]: ...; return/raise` (no else): one test after the other, each with the same leaving body
+            if isinstance(st, ast.If) and not st.orelse and st.body and isinstance(st.body[-1], (ast.Return, ast.Raise)) \
+                    and isinstance(st.test, ast.BoolOp) and isinstance(st.test.op, ast.Or):
+                def _is_helper(v_):
+                    c2 = v_.operand if isinstance(v_, ast.UnaryOp) and isinstance(v_.op, ast.Not) else v_
+                    r2 = self.resolve(c2, cname) if isinstance(c2, ast.Call) else None
+                    return r2 is not None and r2[0] is not owner
+                if any(_is_helper(v_) for v_ in st.test.values):
+                    stmts[i:i + 1] = [ast.If(test=v_, body=copy.deepcopy(st.body), orelse=[], lineno=st.lineno, col_offset=st.col_offset)
+                                      for v_ in st.test.values]
+                    changed = True
+                    continue
             # `if [not] <helper call>: ...; return/raise` (no else)
             if isinstance(st, ast.If) and not st.orelse and st.body and isinstance(st.body[-1], (ast.Return, ast.Raise)):
                 t_ = st.test
